@@ -14,6 +14,7 @@ func checkC20(c *Ctx) {
 	p := c.P
 	c.Decided = "the quorum arithmetic in closed form for every n >= 1 (n < 2^52): from the SSA expression trees of NumFaulty and QuorumSize, for each residue class n = 6k + r, 3f < n <= 3f+3, 2q - n >= f + 1, q <= n - f, and minimality 2(q-1) - n < f + 1; " +
 		"and that every component that forms or checks certificates compares participant counts with RuntimeConfig.QuorumSize(), which is hotstuff.QuorumSize(len(replicas)); no other threshold constant or formula is compared with a participant count there."
+	c.Decided += " The timeout collector's quorum is counted over the timeouts of one view (C08.3)."
 	c.NotDec = "cluster sizes of 2^52 and above (float64 rounding in QuorumSize)."
 	c.Assume = append(c.Assume, "n < 2^52 so that int->float64 conversion, division by 2.0 and math.Ceil are exact")
 	c.Expect("C20.1", 24)
